@@ -438,6 +438,32 @@ class Runner:
                                      "residual(sim(e)) differs from e (NaN innovations read as 0)",
                                      {**case, "y": y}, r_back[1], e0, tol, mask=scale < 1e290)
 
+            # sim_mean left at its default on BOTH calls (the docstring example of both functions)
+            if sform[0] == "d" and all(math.isfinite(v) for v in y):
+                r_dd = self.call(self.am.armodel_residual, phi, y, self.pyargs(sform, m, ini))
+                with warnings.catch_warnings():
+                    warnings.simplefilter("ignore")
+                    nmy = float(np.mean(np.asarray(y))) if n else NAN
+                self.add(f"pyres {C.flist(phi)} {C.flist(y)} {C.f2h(nmy)} none {it}", r_dd, {**base, "form": sform, "inputs": y, "tag": tag},
+                         f"residual_of_sim_default_mean/{ordtag}", nontriv, causes(phi, nmy, ri if sform == "di" else nmy))
+                dcase = {**base, "form": sform, "innov": innov, "y": y}
+                if r_dd[0] != "ok":
+                    if n == 0:
+                        ctx.finding("residual_sim/sim_mean_default_on_both_calls/empty_series",
+                                    "armodel_residual(params, armodel_sim(params, e)) with e empty is rejected (default mean = nanmean of nothing = NaN) instead of returning an empty series", dcase)
+                    else:
+                        ctx.finding("residual/rejects_valid", "a valid call was rejected", {**dcase, "reply": r_dd[1]})
+                else:
+                    ya = np.asarray(y)
+                    with np.errstate(all="ignore"):
+                        L = self.lagged(ya, rm, ri, p)
+                        scale = np.abs(ya) + abs(nmy) + np.abs(e0) + (np.abs(L) + abs(nmy)) @ np.abs(np.asarray(phi))
+                        tol = 8 * (p + 4) * U * scale + 1e-300
+                    self.check_close("residual_sim/sim_mean_default_on_both_calls",
+                                     "armodel_residual(params, armodel_sim(params, e)) differs from e when sim_mean is left at its default on both "
+                                     "calls: armodel_sim centres on 0., armodel_residual on nanmean(inputs)",
+                                     dcase, r_dd[1], e0, tol, mask=scale < 1e290)
+
         # ------------- residual of an arbitrary series, as called
         rform = c.get("resform", "mi")
         with warnings.catch_warnings():
@@ -500,6 +526,17 @@ class Runner:
                 informative = (A * 4 * (p + 3) * U < 1e-7) & np.isfinite(tol) & (S < 1e290)
             self.stat("sim_residual_ill_conditioned_steps", int((~informative).sum()))
             want = np.where(miss, fa + qm, np.asarray(inputs))
+            if rform[0] == "d" and not miss.any():
+                # sim_mean left at its default on both calls
+                r_dd = self.call(self.am.armodel_sim, phi, res, self.pyargs(rform, m, ini))
+                if all(v == v for v in res):
+                    self.add(f"pysim {C.flist(phi)} {C.flist(res)} none {it}", r_dd, {**base, "form": rform, "innov": res, "tag": tag},
+                             f"sim_of_residual_default_mean/{ordtag}", nontriv)
+                if r_dd[0] == "ok":
+                    self.check_close("sim_residual/sim_mean_default_on_both_calls",
+                                     "armodel_sim(params, armodel_residual(params, y)) differs from y when sim_mean is left at its default on both "
+                                     "calls: armodel_residual centres on nanmean(y), armodel_sim on 0.",
+                                     {**case, "residuals": res}, r_dd[1], want, tol, mask=informative)
             if not miss.any():
                 self.check_close(f"sim_residual/order={'1' if p == 1 else '>=2'}", "sim(residual(y)) differs from y",
                                  {**case, "residuals": res}, r_fwd[1], want, tol, mask=informative)
